@@ -167,6 +167,10 @@ def gen_font(rng):
     order = list(glyphs)
     rng.shuffle(order)
     skip = [nm for nm in names if rng.random() < 0.35]
+    if len(skip) == len(names):
+        # keep one named glyph: an OTF holding nothing but '.notdef' cannot be read back by fontTools
+        # (cffLib: AttributeError 'charset' in TTFont.getGlyphSet()) - a library limit, unrelated to skipping
+        skip = skip[1:]
     groups, kerning = {}, {}
     for k in range(rng.randint(0, 3)):
         groups[f"public.kern1.L{k}"] = rng.sample(names, rng.randint(1, min(3, cnt)))
@@ -246,6 +250,32 @@ def pair_kerning(tt):
     return {k: v for k, v in res.items() if v}
 
 
+def _pts_match(ca, cb, tol):
+    if len(ca) != len(cb):
+        return False
+    rest = list(cb)
+    for p in ca:
+        hit = next((q for q in rest if abs(p[0] - q[0]) <= tol and abs(p[1] - q[1]) <= tol), None)
+        if hit is None:
+            return False
+        rest.remove(hit)
+    return True
+
+
+def same_contours(a, b, tol=1):
+    """multisets of contours equal up to `tol` units per coordinate (a decomposed, scaled component is rounded once, a
+    composite is rounded in the base glyph and scaled at rendering time: the two may differ by one unit)"""
+    if len(a) != len(b):
+        return False
+    rest = list(b)
+    for ca in a:
+        hit = next((cb for cb in rest if _pts_match(ca, cb, tol)), None)
+        if hit is None:
+            return False
+        rest.remove(hit)
+    return True
+
+
 def _compare(tag, with_, without, skip, problems):
     skip = set(skip)
     o1, o0 = with_.getGlyphOrder(), without.getGlyphOrder()
@@ -261,7 +291,7 @@ def _compare(tag, with_, without, skip, problems):
         if with_["hmtx"][g][0] != without["hmtx"][g][0]:
             problems.append((tag, f"advance of {g} changed", (with_["hmtx"][g], without["hmtx"][g])))
         a, b = _contours(with_, g), _contours(without, g)
-        if a != b:
+        if not same_contours(a, b):
             problems.append((tag, f"rendering of {g} changed", {"with": a, "without": b}))
     if "GPOS" in without or "GPOS" in with_:
         k1, k0 = pair_kerning(with_), pair_kerning(without)
@@ -401,12 +431,7 @@ def _render_at(vf, name, wght):
 
 
 def _close(a, b, tol=2.0):
-    if len(a) != len(b):
-        return False
-    for ca, cb in zip(a, b):
-        if len(ca) != len(cb) or any(abs(p[0] - q[0]) > tol or abs(p[1] - q[1]) > tol for p, q in zip(ca, cb)):
-            return False
-    return True
+    return same_contours(a, b, tol)
 
 
 def observe_chain(d, flavors):
@@ -475,8 +500,8 @@ def _run(tier, seed, res):
     from contracts import c13rt
 
     rng = random.Random(seed + 1300)
-    n_static = 6 if tier == "quick" else 150
-    n_interp = 3 if tier == "quick" else 60
+    n_static = 6 if tier == "quick" else 300
+    n_interp = 3 if tier == "quick" else 150
     ev = 0
     probs = []
     try:
@@ -499,7 +524,7 @@ def _run(tier, seed, res):
     except Exception:
         res["checker_errors"].append("C13 observer crashed: " + traceback.format_exc()[-1200:])
     # V
-    n_chain = 4 if tier == "quick" else 80
+    n_chain = 4 if tier == "quick" else 200
     vprobs = []
     try:
         for k in range(n_chain):
